@@ -203,7 +203,7 @@ func checkC13(r *Report, known []Finding) {
 	{
 		t := r.Tie("Regex captures: aged value == fresh value over histories in which optional groups come and go")
 		tmpl := []string{`^(a+)(b)?a*c`, `^(a)?(b)?c`, `^(\w+)(?:=(\w+))? *;`, `(\d+)?-x`, `(a)?c+b`, `^(?:(a)|(b)|(ab))*c`, `^(\d+)(?:\.(\d+))?(?:-(\w+))?$`,
-			`(?P<sign>[+-])?\d+\.\d+`, `^(\w+?)(\d)?\w*;`, `(x)?(y)?z`, `^(?:(foo)|(bar))?baz`, `(a)|(b)|(c)`}
+			`(?P<sign>[+-])?\d+\.\d+`, `^(\w+?)(\d)?\w*;`, `(x)?(y)?z`, `^(?:(foo)|(bar))?baz`, `(a)|(b)|(c)`, `(?i)(h\w+) (w\w+)`, `(x*)(x?)(y)?`, `(?i)(content-\w+):\s*(\S+)?`}
 		nb := np / 2
 		for i := 0; i < len(tmpl)+nb; i++ {
 			rng := root.Fork(uint64(i) + 70000)
@@ -240,6 +240,10 @@ func checkC13(r *Report, known []Finding) {
 				}
 				if len(h) > 60 {
 					h = h[:60]
+				}
+				if k%3 == 2 {
+					aged.FindIndex(h) // a plain find in between: the engines share slot tables between the two kinds of search
+					aged.Match(h)
 				}
 				for _, o := range []Obs{obsSubmatch()[0], obsFindAll([]int{-1})[4]} {
 					t.Cases++
